@@ -8,26 +8,26 @@ claimed = {
          "Sign-equivalence with a transliteration of dpkg's verrevcmp is decided for ALL pairs of strings over the version alphabet (unbounded length) by exploring the finite product of the two abstract machines; the weight table and Compare's lexicographic composition are decided exhaustively. Proof modulo the trusted base."),
  "C02": ("proof", AI + ": equivalence to a reference total preorder (same product), Compare composition table, sort adapter tables", "3.C02",
          "Reflexivity, antisymmetry, transitivity and congruence are inherited from sign-equality with the reference order (a lexicographic order on canonical keys, hence a total preorder); the adapter methods are decided by interpretation with an oracle for Compare."),
- "C03": ("other", "SSA dominance/path rules over canonical terms (guards, splits, resets), abstractly evaluated character predicates and render tables, codec dataflow, GOARCH=386 width check", "3.C03",
-         "Structural necessary conditions, each decided exactly; under the stated library contracts they compose to the round-trip argument of DESIGN 3.C03. Not a proof of the library calls themselves."),
+ "C03": ("other", AI + " of Parse / Unmarshal* / String / Marshal* on a generated family of version strings against a Policy 5.6.12 reference (accept/reject and fields), character predicates on every byte, reset of all fields, codec identity, render->parse round trip; GOARCH=386 load for the epoch width", "3.C03",
+         "Accept/reject and the parsed fields, alphabets, reset, codecs and the render/parse round trip are decided on a family of strings generated from the grammar's token classes and the positions the parser distinguishes; strings outside the family are not decided."),
  "C04": ("other", AI + ": dependency.Parse explored on a lazily revealed input of unbounded length into a finite transition system; regular-language inclusion / emptiness against Policy 7.1 languages; token-effect events; error-discipline dataflow", "3.C04",
          "Acceptance of a conservative Policy grammar and rejection of twelve malformed classes are decided for inputs of every length on the extracted automaton; token hygiene (no blank inside a token, no empty token), the operator set, error propagation and totality are decided; exactness of the produced AST is not."),
  "C05": ("other", "field read/write sets over the SSA call trees, conversion scan, events of the parser transition system, " + AI + " of parse/render/parse on architecture names and on a generated family of fields", "3.C05",
          "Renderer field coverage, byte fidelity, and absence of stored-but-unrendered entries are universal; the architecture and field fixpoints are decided on exhaustive component combinations / a generated family."),
  "C06": ("proof", AI + " on a universe exhaustive by data independence: complete decision tables with callee oracles; loop-shape check for induction over list length", "3.C06",
          "Complete decision tables of Is/IsWildcard/Matches/GetPossibilities/GetAllPossibilities/GetSubstvars/SatisfiedBy against the property's specification, exhaustive up to renaming."),
- "C11": ("other", "SSA dominance and dataflow rules over canonical terms on the clear-sign decoder (must-pass-through of a checked verification, same-block provenance of verified and parsed bytes, who-writes on the signer field, error propagation)", "3.C11",
-         "Exactly the wrapper obligations that turn openpgp.CheckDetachedSignature's guarantee into the property are decided; the OpenPGP library is trusted."),
+ "C11": ("other", AI + " of NewParagraphReader / NewDecoder / Signer over scenarios (plain/signed x four keyrings x every outcome of clearsign.Decode, io.ReadAll and CheckDetachedSignature), readers and byte slices carrying provenance", "3.C11",
+         "Exactly the wrapper obligations that turn openpgp.CheckDetachedSignature's guarantee into the property are decided on every scenario path; the OpenPGP library is trusted."),
  "C12": ("other", AI + " of GetHash / Verifier / the hashing constructors / verifier.Close with opaque hash objects and interpreted package initialisers; type-level field/algorithm table; term rules on Hasher", "3.C12",
          "Algorithm tables (incl. freshness of hash objects), verifier algorithm choice for every name x hash length, fan-out wiring, byte counting and Close verdict are decided; the digests themselves are the standard library's."),
  "C13": ("other", AI + " of LoadAr / Ar.Next / the header parser on a symbolic 60 byte header (opaque byte tokens, symbolic sizes, linear offsets)", "3.C13",
          "Column provenance of every entry field, name trimming, member reader placement, offset arithmetic, freshness, global and header magic, short reads are decided for every header; byte equality of the delivered data rests on io.SectionReader."),
- "C14": ("other", "SSA dominance rules over canonical terms, decompressor table extraction from the package initialiser, error-discipline and map-order dataflow rules, " + AI + " of IsTarfile", "3.C14",
-         "Format checks, codec wiring, extension slicing, control lookup, determinism and index completeness are decided structurally; tar/decompressor behaviour is trusted."),
- "C15": ("other", AI + " of Ar.Next on a symbolic header (progress >= 60 bytes per member with size >= 0 on the path, header magic, short reads) + loop-exit, map-order, fatal-call and bounds rules", "3.C15",
-         "Termination bound and consistency clauses decided for every header; delivery of exactly size bytes on truncated input is not decided."),
- "C16": ("other", "SSA term/dataflow rules on CheckDebsig (exact role lookup, ordered MultiReader of rewound members, results unchanged) + shared-selector and map-order rules", "3.C16",
-         "The wrapper obligations that turn the OpenPGP library's guarantee into the property are decided; the library is trusted."),
+ "C14": ("other", AI + " of the .deb loader on scripted archives: the ar iterator, bufio, the six decompressor constructors, archive/tar, control.Unmarshal and Close are provenance-recording oracles; every iteration order of the member map is explored; decompressor table read from the interpreted package initialiser", "3.C14",
+         "Format checks, codec wiring for all 36 encoding combinations, extension slicing, control lookup, untouched data stream, determinism and index completeness are decided on the scenario family; tar/decompressor behaviour is trusted."),
+ "C15": ("other", AI + " of Ar.Next on a symbolic header (progress >= 60 bytes per member with size >= 0 on the path, header magic, short reads) and of the loader on scripted archives over every map iteration order (loop exit, determinism); fatal-call reachability; constant-index bounds", "3.C15",
+         "Termination bound and consistency clauses are decided for every header and every scripted archive; delivery of exactly size bytes on truncated input is not decided."),
+ "C16": ("other", AI + " of CheckDebsig on scripted member maps (roles, decoys, both library verdicts) over every map iteration order, with Seek, io.MultiReader and CheckDetachedSignature as recording oracles; the loader interpreted on the same scenarios", "3.C16",
+         "The wrapper obligations that turn the OpenPGP library's guarantee into the property are decided on the scenario family; the library is trusted."),
  "C19": ("other", AI + " of OrderDSCForBuild on exact source descriptions with a recording oracle for the topological sorter (every AddEdge/Sort outcome enumerated); struct-tag and map-order rules", "3.C19",
          "Edges per build-dependency field (with C06 selection semantics interpreted, not mocked), edge direction, node-before-edge order, error propagation and result construction are decided; the sorter itself is trusted."),
  "C20": ("other", AI + " of the six upload methods and internal.Copy with every filesystem call replaced by an effect-recording oracle forking into success and failure", "3.C20",
@@ -36,8 +36,8 @@ claimed = {
          "The reader's line classification, folding, duplicate handling, EOF handling and the Order/Values invariant are decided for every combination of reader state class and line kind; documents outside the line kinds are not."),
  "C08": ("other", AI + " of Paragraph.WriteTo and of the reader on the text written (line-sequence value table), receiver/typestate rules on the encoder, map-order rule", "3.C08",
          "Write/read identity, fixpoint of repeated cycles and absence of blank lines are decided on all values of up to 3 lines over 6 line shapes; one genuine representation gap is a recorded known finding."),
- "C09": ("other", "SSA rules over canonical terms on the reflection walkers (kind dispatch tables, tag constants, omit/required guards and their order, nil test), type-level interface checks on all document fields, " + AI + " of Paragraph.Update / Set", "3.C09",
-         "Necessary structural conditions of the round trip; package reflect itself is not interpreted."),
+ "C09": ("other", AI + " of control.Marshal and Decoder.Decode end to end on probe struct types built by the checker with go/types, with package reflect replaced by a model over the abstract heap (reflect panics become panic states), writer and reader as oracles; type-level interface table; Update / Set tables", "3.C09",
+         "Decode table, decode/marshal/decode identity and text fixpoint, required/omitted handling, merge with the embedded Paragraph and absence of panics are decided on probes covering every supported kind and tag combination; probe values outside the tables are not."),
  "C17": ("other", AI + " of changelog.Parse / ParseOne with a scripted reader (all scripts up to 3 lines over 14 kinds, plus every single-line edit, truncation and missing final newline of well-formed changelogs), compared with a deb-changelog reference model", "3.C17",
          "Every entry field and the all-or-error verdict are decided on the script family; time.Parse is trusted."),
  "C18": ("other", "global-write scan, loop classification (counted / reader / cursor loops backed by the C01 and C04 explorations), index and slice range rules over canonical terms, fatal-call and type-assertion reachability, value-xor-error dataflow", "3.C18",
